@@ -198,6 +198,22 @@ def c03(sc, ctx, ex, ob, V, P):
         if len(names.get(nm, [])) != 1:
             V('resource-missing', '-', f'resource name {nm!r} used by a task appears {len(names.get(nm, []))} times in Schedule.resources')
     supplied = set(k for k, v in sc.cals.items() if v not in ('none', None))
+    # a resource the caller supplied is the resource the plan is made against: what the result holds under that name offers what
+    # the supplied calendar offers (the same object today; a copy or wrapper would do as well)
+    for r0 in (getattr(ex, 'resources_in', None) or []):
+        nm = getattr(r0, 'name', None)
+        if nm in used and len(names.get(nm, [])) == 1 and names[nm][0] is not r0:
+            base = day(sc.anchor) - 10 * DAY
+            for k in range(24):
+                d = base + k * DAY
+                try:
+                    a, b = names[nm][0].get_available_units(d), r0.get_available_units(d)
+                except Exception:  # noqa
+                    break
+                if a != b:
+                    V('supplied-resource-replaced', '-', f'resource {nm!r} was supplied with {b} units on {d:%a %Y-%m-%d}; the resource of '
+                      f'that name in the result offers {a}')
+                    break
     for nm in used:
         if nm not in supplied and len(names.get(nm, [])) == 1:
             P('default-resource')
